@@ -51,6 +51,7 @@ var tlibrary = []tscript{
 	{true, []sop{{opEmptyKey, 0}, {opSet, 1}, {opDiscard, 0}, {opSetAfterFinish, 1}, {opCommitAfterFinish, 0}, {opGetAfterFinish, 1}}}, // 8: misuse
 	{true, []sop{{opGet, 1}, {opCommit, 0}}},                                  // 9: read-write transaction that writes nothing
 	{true, []sop{{opDel, 1}, {opCommit, 0}}},                                  // 10: blind delete
+	{true, []sop{{opSet, 1}, {opCommit, 0}, {opSetAfterFinish, 0}, {opCommitAfterFinish, 0}, {opGetAfterFinish, 1}}}, // 11: use after a successful commit
 }
 
 type tcommit struct {
@@ -251,8 +252,18 @@ func VH_TXN() {
 	if vf.Param("UPDATEERR", 0) == 1 {
 		updErrAt = vf.Choose("updateErrAt", 0, total)
 	}
+	extraAt := -1
+	if vf.Param("EXTRA", 0) == 1 {
+		extraAt = vf.Choose("extraCommitAt", 0, total)
+	}
 	errClosure := errors.New("closure failed")
 	for s := 0; s <= total; s++ {
+		if s == extraAt {
+			// an unrelated third transaction commits here (its key is outside the scripts' keys)
+			xv := []byte{vf.Byte("extra")}
+			vf.Assert("TXN.extra-commit", db.Update(func(txn *Txn) error { return txn.Set("zz", xv) }) == nil)
+			w.commits = append(w.commits, tcommit{val: map[string][]byte{"zz": xv}, del: map[string]bool{}})
+		}
 		if s == updErrAt {
 			// C08: an Update whose closure returns an error applies nothing
 			err := db.Update(func(txn *Txn) error {
